@@ -651,6 +651,11 @@ def run(prop, tier, seed):
                 known_seen.setdefault(k + "-honest", text)
     for c, what in sorted(known_seen.items()):
         vlib.known_finding(prop, what)
+    chk = None
+    if tier == "thorough" and audit["ok"]:
+        chk = vlib.coqchk(prop)
+        if not chk["ok"]:
+            vlib.log("coqchk problem:\n" + chk["log"][-1500:])
     # evidence
     tfiles = [f for f in vlib.coq_deps("Props/%s.v" % prop) if not f.startswith("Gen/")]
     nthm = vlib.count_theorems(tfiles) if audit["ok"] else 0
@@ -664,6 +669,7 @@ def run(prop, tier, seed):
         "traces_validated_against_impl": outcome.cases, "ops": outcome.ops, "panics_observed": outcome.panics,
         "disagreements": len(outcome.disagree), "monitor_failures": {k: len(v) for k, v in outcome.monfail.items()},
         "distribution": dist, "builds": [b for b, _ in bins],
+        "coqchk": ({"ok": chk["ok"], "axioms": chk["axioms"]} if chk else "thorough tier only"),
         "samples": sample_cases(all_cases), "proof_problems": problems, "drifted_functions": drift, "honest_wrap_replays": {k: v[1] for k, v in honest.items()}, "known_findings_reproduced": sorted(known_seen),
         "explanation": "theorems about the Gallina model of src/timers/mod.rs (coq/T) + translator-regenerated arithmetic (coq/Gen) + correspondence of results and full internal state after every op, debug and release builds",
     }
